@@ -26,6 +26,7 @@ struct ModRec {
     CtxW *cw = nullptr;
     int idx = 0;
     m_mod_t *h = nullptr;
+    m_mod_t *raw = nullptr;   // the handle it was registered with (still what messages it sent carry after it has been deregistered)
     std::string name;
     int events = 0;
     bool deregistered = false;
@@ -90,6 +91,7 @@ void barrier() {
 
 ModRec *rec_of(m_mod_t *self) {
     for (auto &c : G->ctxs) for (auto &m : c.mods) if (m.h == self) return &m;
+    for (auto &c : G->ctxs) for (auto &m : c.mods) if (m.raw == self && m.deregistered) return &m;
     return nullptr;
 }
 
@@ -176,7 +178,8 @@ ModRec *pick(CtxW &c, long i) {
 }
 
 void exec_own(CtxW &c, const Op &op) {
-    const std::string &n = op.name;
+    std::string n = op.name;
+    if (n.rfind("post_", 0) == 0) n = n.substr(5);   // the same operation, made after the context's own loop has returned (others may still be looping)
     if (n == "reg") {
         if (!c.has_ctx) return;
         c.mods.emplace_back();
@@ -185,7 +188,9 @@ void exec_own(CtxW &c, const Op &op) {
         m.idx = (int)c.mods.size() - 1;
         m.name = "mod" + std::to_string(op.arg(0) % 4);   // the same names are used in every context on purpose
         for (auto &o : c.mods) if (&o != &m && o.name == m.name && !o.deregistered) { c.mods.pop_back(); return; }
-        int rc = m_mod_register(m.name.c_str(), &m.h, &HOOK, (m_mod_flags)0, nullptr);
+        // (some modules hide the context from their own callbacks: whose thread a call comes from is decided all the same)
+        int rc = m_mod_register(m.name.c_str(), &m.h, &HOOK, (m_mod_flags)((op.arg(1, 0) & 1) ? M_MOD_DENY_CTX : 0), nullptr);
+        m.raw = m.h;
         obs(c, "reg %s rc=%d", m.name.c_str(), rc);
         if (rc != 0) { oracle_eval("C14.own-call-succeeds"); VIOL("C14", "C14:own-register-refused", "context %d: registering module %s (a free name in this context) returned %d", c.k, m.name.c_str(), rc); }
         return;
@@ -236,6 +241,16 @@ void exec_own(CtxW &c, const Op &op) {
     } else if (n == "resume") {
         int rc = m_mod_resume(m->h);
         obs(c, "resume %s rc=%d", m->name.c_str(), rc);
+    } else if (n == "stop") {
+        if (m->name == "deadline") return;
+        int rc = m_mod_stop(m->h);
+        obs(c, "stop %s rc=%d", m->name.c_str(), rc);
+    } else if (n == "dereg") {
+        // whatever the module still holds (descriptors, memory) goes now - and nothing of anybody else's
+        if (m->name == "deadline") return;
+        int rc = m_mod_deregister(&m->h);
+        obs(c, "dereg %s rc=%d", m->name.c_str(), rc);
+        if (rc == 0) m->deregistered = true;
     }
 }
 
@@ -574,7 +589,7 @@ Program gen_ctxs(const std::string &campaign, uint64_t seed, bool thorough) {
         std::string who = "c" + std::to_string(k);
         int nm = (int)r.range(1, 3);
         for (int i = 0; i < nm; i++) {
-            p.add(who, "reg", {(long)i});
+            p.add(who, "reg", {(long)i, r.chance(0.25) ? 1L : 0L});
             if (r.chance(0.7)) p.add(who, "start", {(long)(i + 1)});
         }
         int nops = (int)r.range(2, thorough ? 14 : 8);
@@ -592,11 +607,14 @@ Program gen_ctxs(const std::string &campaign, uint64_t seed, bool thorough) {
 #ifdef SIM_BUILD_RACE
                 p.add(who, "start", {(long)r.below(4)});   // (no pause next to task sources: avoid filter of the known task-thread finding)
 #else
-                p.add(who, r.chance(0.5) ? "start" : "pause", {(long)r.below(4)});
+                { static const char *L[] = {"start", "pause", "stop", "dereg", "start", "stop"}; p.add(who, L[r.below(6)], {(long)r.below(4)}); }
 #endif
                 break;
             }
         }
+#ifndef SIM_BUILD_RACE
+        if (r.chance(0.3)) p.add(who, r.chance(0.6) ? "post_dereg" : "post_stop", {(long)r.below(4)});   // after its own loop, next to the others' loops
+#endif
         if (k == 0 && r.chance(0.5)) p.add(who, "foreign_in_cb", {(long)r.below(3), (long)r.below(4), (long)r.below(31), (long)r.below(4)});
         int nf = (int)r.range(0, 4);
         for (int i = 0; i < nf; i++) p.add(who, "foreign", {(long)r.below(3), (long)r.below(4), (long)r.below(34), (long)r.below(4)});
